@@ -56,13 +56,15 @@ LEVEL_NOTE = ("Partial by nature: that compile(..., PyCF_ONLY_AST) / ast.parse e
               "(any request trees); the gates are tied separately. Faults while walking an imported module that the handlers do not convert (RuntimeError, "
               "KeyboardInterrupt, a BaseException subclass; OSError for a module without file) leave load unconverted: modelled as the code is, classified "
               "by C15_failures_classified; the property statement only asks for the restoration of sys.path, which holds for them. `griffe check` with "
-              "inspection allowed is checked directly only (modules imported from the removed first worktree stay in sys.modules: outside the model). "
+              "inspection allowed is compared with the model too: the second load sees what the first one imported from its removed worktree (a cached regular "
+              "package keeps a stale __path__, its uncached submodules cannot be imported; the harness renders this into the second phase's world from the "
+              "observed sys.modules). A history on one loader is proved to be the same calls on fresh loaders (C15_history_refines_to_fresh_loaders). "
               "The options of a loader are parameters of the model: that no method assigns to them is checked by the translator and observed after every call "
               "of a history. Nested Griffe calls made by analysed code are modelled as nested sys_path scopes with effects on sys.path inside (what the nested "
               "import itself executes is not). os._exit, threads and code that keeps a reference to the original sys.path list object are outside the model. The restore theorems need "
               "search paths or sys.path to be non-empty (sys_path() without paths is a no-op; sharpness shown by an Example).")
 MODEL = ("Model.C15_loader", "run_C15")
-COQ_TARGETS = ["Proofs/C15_loader.vo", "Proofs/C15_restore.vo", "Proofs/C15_failures.vo", "Proofs/C15_reads.vo"]
+COQ_TARGETS = ["Proofs/C15_loader.vo", "Proofs/C15_restore.vo", "Proofs/C15_failures.vo", "Proofs/C15_reads.vo", "Proofs/C15_history.vo"]
 RULE = ("systematic: a fixed package (top, a, sub/__init__, sub/k, compiled .so and .pyc submodules, stub) with one fault kind (8 import-time faults, "
         "syntax / encoding errors, 4 walk faults) x one placement x with/without sys.path effects, loaded under allow / force / both / neither, by name, "
         "by path, with search_paths=None in a normalised interpreter, with stale search paths, and (every fourth) through load_git / dump / check; random: "
@@ -703,7 +705,8 @@ def run_case(c, griffe, L, I, Path):
         sp = kw.get("search_paths")
         loaders.append({"obj": self, "allow": self.allow_inspection, "force": self.force_inspection, "store": self.store_source,
                         "given": None if sp is None else [str(x) for x in sp], "finder": [str(x) for x in self.finder.search_paths],
-                        "events_at": len(events), "loads_at": len(loads), "syspath_at": list(sys.path)})
+                        "events_at": len(events), "loads_at": len(loads), "syspath_at": list(sys.path),
+                        "mods_at": sorted(m for m in sys.modules if m.split(".")[0] in tuple(c["names"]))})
     GL._visit_module, GL._inspect_module, GL._create_module, GL.load, GL.__init__ = v, i, cr, ld, init
     res = {}
     try:
@@ -970,6 +973,22 @@ def resolved_in(paths, cwd):
     return resolved_unique([p if os.path.isabs(p) else os.path.join(cwd, p) for p in paths])
 
 
+def drop_stale(tree, behs, cached):
+    """`griffe check` loads twice: what the first load imported stays in sys.modules when its worktree is removed.  A regular
+    package cached from there keeps a __path__ that no longer exists, so its submodules that are not cached themselves cannot be
+    imported any more (a namespace package recomputes its path from sys.path)."""
+    regular = {tuple(m["parts"]) for p in tree["pkgs"] if p["kind"] != "stubsonly" for m in p["mods"] if m["kind"] == "init"}
+
+    def importable(n):
+        parent = tuple(n[:-1])
+        if not parent:
+            return True
+        if ".".join(parent) in cached:
+            return parent not in regular
+        return importable(list(parent))
+    return [b for b in behs if ".".join(b[0]) in cached or importable(b[0])]
+
+
 def phases_of(base, tree, case, obs):
     """the loaders an entry point built, each with the loads made on it (the model's phases)"""
     entry, out = case["entry"], []
@@ -990,6 +1009,8 @@ def phases_of(base, tree, case, obs):
         if trees and ep != "dump":
             trees[0][0] = tree["root"]      # the root may have been given as a path
         world = world_of(wbase, tree, wcase, order)
+        if k > 0:
+            world[1] = drop_stale(tree, world[1], set(ld.get("mods_at", [])))
         if ep == "dump":       # one load per package (try_relative_path=True), then the re-entries of alias resolution
             roots = [t for t, c in zip(trees, [c for c in loads if c[3] == 0]) if c[1] is not False]
             later = [t for t, c in zip(trees, [c for c in loads if c[3] == 0]) if c[1] is False]
@@ -1236,6 +1257,9 @@ def check_load(ctx, base, tree, case, o, G, use_model, batch):
     ctx.observe("already_imported", "none" if not case.get("preimport") else "nothing stayed" if not o.get("premods") else
                 "top only" if all("." not in x for x in o["premods"]) else "partly")
     ctx.observe("lazy_getattr", any(m.get("lazy") for p in tree["pkgs"] for m in p["mods"]))
+    if str(case.get("entry", "")).startswith("check") and not static and len(o.get("loaders", [])) > 1:
+        # the second load of `griffe check` runs with what the first one imported from its (removed) worktree still in sys.modules
+        ctx.observe("check_second_load_sees_stale_modules", bool(o["loaders"][1].get("mods_at")))
     lazy_pkgs = {".".join(m["parts"]) for p in tree["pkgs"] for m in p["mods"] if m.get("lazy")}
     twice = [n for n, k in Counter(e["exec"] for e in o["execs"]).items() if k > 1 and n.rpartition(".")[0] in lazy_pkgs]
     ctx.observe("lazy_reimport_of_failed_submodule", bool(twice))
@@ -1621,8 +1645,6 @@ def build_cases(ctx, base_root, n_random, per_tree_static, per_tree_dyn, with_sy
                 entry = rng.choice(["load_git", "load_git", "load_git", "dump", "dump", "check_tree", "check_ref"])
                 c = make_entry_case(base, t, cid, o, entry)
                 cid += 1
-                if entry.startswith("check") and (c["opts"]["allow_inspection"] or c["opts"]["force_inspection"]):
-                    c["no_model"] = True      # modules imported from the first (removed) worktree stay in sys.modules: outside the model
                 ecases.append(c)
             git_repo(base, [tag for c in ecases for tag in c["tags"]])
             cases += [(t, c) for c in ecases]
@@ -1673,7 +1695,7 @@ def explore(ctx):
             "model_branch": ["orphan", "skip.so", "skip.py", "skip.pyc"],
             "by": ["name", "path", "relpath", "hidden", "missing_path", "stale_search", "default_search", "load_git", "dump", "check_tree", "check_ref", "history"],
             "entry_point": ["load", "load_git", "dump", "check_old", "check_new_ref", "check_new_tree"], "finder_paths": ["given", "sys.path"],
-            "load_nesting_depth": [0, 1, 2], "already_imported": ["none", "top only", "partly"], "lazy_getattr": [True, False], "lazy_reimport_of_failed_submodule": [True, False],
+            "load_nesting_depth": [0, 1, 2], "already_imported": ["none", "top only", "partly"], "lazy_getattr": [True, False], "check_second_load_sees_stale_modules": [True], "lazy_reimport_of_failed_submodule": [True, False],
             "effect_executed": ["ins0", "rebind", "clear", "scope:sys_path", "scope:dynamic_import_fail", "scope:dynamic_import_ok", "scope:inspect_ok",
                                 "scope:load_ok", "scope:load_fail"]}
     for d, keys in need.items():
